@@ -5,6 +5,7 @@ import AC.Props.C09
 import AC.SeqLast
 import AC.OptProof
 import AC.Gen.Ensemble
+import AC.C01Total
 /-! # C01 — every search algorithm returns a genuine addition chain ending at the target
 
 Model: `P.DA.execute` (`exec.Execute` over `binary.RightToLeft`, `alg.AsChainAlgorithm`,
@@ -13,11 +14,43 @@ Model: `P.DA.execute` (`exec.Execute` over `binary.RightToLeft`, `alg.AsChainAlg
 namespace AC.Props.C01
 open P P.DA
 
-/-- full statement over the executable model -/
-def C01_Statement : Prop :=
-  ∀ (a : ChainAlg) (n : Nat), a.wf = true → 1 ≤ n →
-    ∃ o c p, execute a n o = .ok (c, p) ∧ IsChain c ∧ c.getLast? = some (n : Int) ∧
-      p.length + 1 = c.length ∧ evaluate p = c
+/-- **totality ("reports no error")**: for every well-formed configuration (window sizes ≥ 1,
+    heuristic compositions containing a total heuristic, any nesting of the optimisation wrapper)
+    and every target `n ≥ 1` whose bit length fits a machine word (the documented input-size range;
+    only the runs algorithm needs it), for all sufficiently large fuel of the continued-fraction
+    recursion and EVERY sort oracle: `Execute` returns a valid addition chain ending at `n` with one
+    op per non-initial element that re-evaluates to it — or the oracle was not an admissible result
+    of sorting the rebuilt sum by exponent (which the driver checks on the real order) -/
+theorem C01_total (a : ChainAlg) (hw : a.wf = true) (n : Nat) (hn : 1 ≤ n) (hsz : Nat.log2 n + 1 < 2 ^ 64) :
+    ∃ F, ∀ f, F ≤ f → ∀ o,
+      (∃ c p, executeWith (SeqAlg.findF f) a n o = .ok (c, p) ∧ IsChain c ∧ c.getLast? = some (n : Int) ∧
+        p.length + 1 = c.length ∧ evaluate p = c) ∨
+      executeWith (SeqAlg.findF f) a n o = .error .oracle :=
+  executeWith_total a hw n hn hsz
+
+/-- the driver's executable model (fuel search for continued fractions) agrees with the
+    fuel-indexed model of `C01_total`: a result it returns is the result for every large fuel -/
+theorem C01_driver_agrees (a : ChainAlg) (n : Nat) (o : List TermP) (x : List Int × List Op)
+    (h : execute a n o = .ok x) : ∃ f0, ∀ f, f0 ≤ f → executeWith (SeqAlg.findF f) a n o = .ok x :=
+  executeWith_of_execute a n o x h
+
+/-- every member of the default ensemble satisfies the hypotheses of `C01_total` -/
+theorem C01_ensemble_total (n : Nat) (hn : 1 ≤ n) (hsz : Nat.log2 n + 1 < 2 ^ 64) :
+    ∀ a ∈ AC.Gen.ensembleConfigs, ∃ F, ∀ f, F ≤ f → ∀ o,
+      (∃ c p, executeWith (SeqAlg.findF f) a n o = .ok (c, p) ∧ IsChain c ∧ c.getLast? = some (n : Int) ∧
+        p.length + 1 = c.length ∧ evaluate p = c) ∨
+      executeWith (SeqAlg.findF f) a n o = .error .oracle := by
+  have h : AC.Gen.ensembleConfigs.all (fun a => a.wf) = true := by decide +kernel
+  exact fun a ha => executeWith_total a ((List.all_eq_true.1 h) a ha) n hn hsz
+
+/-- `primitive` over the executable list model: succeeds on every valid chain containing the
+    dictionary terms, keeps the sum's value, and yields a sum-closed pruned sub-chain containing 1 -/
+theorem C01_primitivePre_ok (sum : List TermP) (c : List Nat) (hc : IsChain (c.map Int.ofNat))
+    (hlen : 2 ≤ sum.length) (hmem : ∀ t ∈ sum, t.1 ∈ c) :
+    ∃ pre pruned, primitivePre sum c = some (pre, pruned) ∧ valueP pre = valueP sum ∧
+      (∀ t ∈ pre, t.1 ∈ pruned) ∧ 1 ∈ pruned ∧ (∀ x ∈ pruned, x ∈ c) ∧
+      (∀ x ∈ pruned, x = 1 ∨ ∃ a ∈ pruned, ∃ b ∈ pruned, a + b = x) :=
+  primitivePre_ok sum c hc hlen hmem
 
 /-- whatever `execute` returns is a valid chain ending at the target, with one op per non-initial
     element, re-evaluating to the chain — for EVERY configuration, target and oracle
